@@ -62,6 +62,8 @@ class Run:
 
 
 def get_exe(run, flavour='plain'):
+    if os.environ.get('VERIF_COV'):
+        flavour = 'cov'      # bin/coverage: measure which library lines the stimuli reach
     try:
         exe, bdir, secs, cached = buildmod.build(flavour)
     except buildmod.BuildError as e:
